@@ -509,6 +509,97 @@ func main() {
 			}
 		}
 	}
+	// ---- the exported surface: every entry point x a representative description / request family ----
+	// Same reference for every entry point; after the handler chain has answered, the exported lookup
+	// methods (Context.LookupRoute / RouteInfo / AllowedMethods, Router.Lookup / OtherMethods) are
+	// called with the same request and must tell what the chain did.
+	{
+		surfU := []string{"/", "/a", "/a/{p}", "/{p}/b", "/a/{p}/{q}", "/{q}/c", "/a/", "/b/{pet-id}"}
+		var specs [][]OpC
+		for _, set := range enum.Subsets(len(surfU), 1, 2) {
+			var ops []OpC
+			for _, ti := range set {
+				ops = append(ops, OpC{Method: "GET", Template: surfU[ti]})
+			}
+			specs = append(specs, ops)
+		}
+		specs = append(specs,
+			[]OpC{{"GET", "/a/{p}"}, {"POST", "/a/{p}"}, {"DELETE", "/{p}/b"}},
+			[]OpC{{"GET", "/"}, {"POST", "/a"}},
+			[]OpC{{"GET", "/a/{p}/{q}"}, {"PUT", "/a/{p}"}, {"OPTIONS", "/a/{p}"}})
+		var sds []Desc
+		for _, ops := range specs {
+			sds = append(sds, Desc{Base: "", Ops: ops}, Desc{Base: "/api", Ops: ops})
+		}
+		surfFam := family{long: []string{"a", "b", "c", "x", "+", "a+b", "%252F", "%25", "%2F", "é"}, longLen: 2, full: fullAlpha, fullLen: 1,
+			methods: []string{"GET", "POST", "get", "DELETE", "FOO"}, mAlpha: []string{"a", "b", "x"}, mLen: 2, suffixes: []string{"", "/"},
+			wrongLen: 1, specials: specials, longMeths: []string{"GET", "POST"}}
+		if r.Thorough() {
+			surfFam.longLen = 3
+		}
+		reqs := map[string][]reqT{}
+		for _, base := range []string{"", "/api"} {
+			for _, q := range surfFam.requests(base) {
+				if _, err := parse(rawRequest(q.method, q.target)); err == nil {
+					reqs[base] = append(reqs[base], q)
+				}
+			}
+		}
+		r.Set("sweep_exported-surface", map[string]any{"descriptions": len(sds), "entry_points": surfaceVias, "requests_per_description_and_entry_point": len(reqs[""]),
+			"direct_calls_compared":  []string{"Context.LookupRoute", "Context.RouteInfo", "Context.AllowedMethods", "Router.Lookup", "Router.OtherMethods"},
+			"route_params_accessors": []string{"slice", "Get", "GetOK"}})
+		enum.Parallel(len(sds), stop, func(k int) {
+			d := sds[k]
+			doc, err := d.load()
+			if err != nil {
+				r.Fail("description-rejected", err.Error(), Case{Desc: d, Via: "routes", Method: "GET", Target: "/"})
+				return
+			}
+			w := newWire()
+			var evals, nontrivial int64
+			out := map[string]int64{}
+			for _, via := range surfaceVias {
+				b := wireUp(d, doc, via)
+				for _, q := range reqs[d.Base] {
+					req, err := w.parse(rawRequest(q.method, q.target))
+					if err != nil {
+						continue
+					}
+					o := b.serve(req)
+					evals++
+					class, what, _ := judge(b.routes, req.Method, req.URL.EscapedPath(), o)
+					class = viaSuffix(class, via)
+					if class == "" {
+						req2, _ := w.parse(rawRequest(q.method, q.target))
+						class, what = b.direct(req2, o)
+					}
+					if class != "" {
+						r.Fail(class, what, Case{Desc: d, Via: via, Method: q.method, Target: q.target})
+					}
+					switch {
+					case o.Panic != "":
+						out["panic"]++
+					case len(o.Runs) > 0:
+						out[fmt.Sprintf("dispatched-%dparams", len(o.Runs[0].Params))]++
+						nontrivial++
+					default:
+						out[fmt.Sprintf("refused-%d", o.Status)]++
+						if o.Status == 405 {
+							nontrivial++
+						}
+					}
+				}
+			}
+			r.Eval(evals)
+			r.Nontrivial(nontrivial)
+			mu.Lock()
+			for k, v := range out {
+				totals[k] += v
+			}
+			mu.Unlock()
+		})
+	}
+
 	// ---- sequences on one wired handler x operationId variants ----
 	// Every request of the alphabet is served FIRST by its own fresh handler; then that handler
 	// serves the whole alphabet in order. Each answer must be the one the reference demands,
@@ -634,5 +725,5 @@ func main() {
 		"net/http's request parsing (http.ReadRequest, URL.EscapedPath) and net/url.PathUnescape are trusted",
 		"descriptions in which two operations of one method have the same shape are wired by the library in Go map order; one order is explored per run",
 	)
-	r.Finish("every description of the stated families (template sets x method assignment x base path; template shapes x every ordered selection of distinct placeholder names from the stated name alphabet) x every request line of the family for its base path (symbol sequences up to the stated length x methods x trailing decorations x right/noisy/absent/wrong base prefix); one evaluation = one request served by the real handler chain and compared with the reference dispatcher; non-trivial = a handler ran, or the answer was 405, or the oracle failed (distinct by construction: descriptions are distinct sets, request lines are de-duplicated per description; the sweep debug-logging-on repeats the method-centred descriptions with middleware.Debug = true against the same expectations and serves each request the stated number of times, each serving being one evaluation; the sweep sequences-on-one-handler serves, for every description x operationId variant, every request of its alphabet first on a fresh handler and then the whole alphabet in order on that same handler, each serving being one evaluation judged by the same reference)", !ownCut)
+	r.Finish("every description of the stated families (template sets x method assignment x base path; template shapes x every ordered selection of distinct placeholder names from the stated name alphabet) x every request line of the family for its base path (symbol sequences up to the stated length x methods x trailing decorations x right/noisy/absent/wrong base prefix); one evaluation = one request served by the real handler chain and compared with the reference dispatcher; non-trivial = a handler ran, or the answer was 405, or the oracle failed (distinct by construction: descriptions are distinct sets, request lines are de-duplicated per description; the sweep debug-logging-on repeats the method-centred descriptions with middleware.Debug = true against the same expectations and serves each request the stated number of times, each serving being one evaluation; the sweep sequences-on-one-handler serves, for every description x operationId variant, every request of its alphabet first on a fresh handler and then the whole alphabet in order on that same handler, each serving being one evaluation judged by the same reference; the sweep exported-surface serves a representative description x request family through every exported entry point, reads the matched route through every RouteParams accessor, and compares the exported lookup methods called directly with what the handler chain did)", !ownCut)
 }
